@@ -177,7 +177,7 @@ func (ch c01) Run(c *core.Ctx) {
 	}()
 	n := 2500
 	if c.Tier == "thorough" {
-		n = 6500
+		n = 60000
 	}
 	for i := 0; i < n; i++ {
 		if !c.Begin(i) {
